@@ -77,7 +77,7 @@ type Provider struct {
 
 type provider struct {
 	close func() error                      `name:"!!"`
-	begin func() ([]call, error)            `name:"!"`
+	begin func() (*[]call, error)           `name:"!"`
 	end   func(results []returnValue) error `name:"="`
 }
 
@@ -252,10 +252,14 @@ func (p *Provider) Listen() {
 			}
 			continue
 		}
+		// nil tells the provider to stop. An idle poll answers an empty list,
+		// which decodes to a nil slice but not to a nil pointer.
 		if calls == nil {
 			return
 		}
-		go p.dispatch(calls)
+		if len(*calls) > 0 {
+			go p.dispatch(*calls)
+		}
 	}
 }
 
